@@ -192,7 +192,11 @@ void enumRead(const std::function<bool(const ReadCase &)> &cb) {
 struct WriteCase {
   size_t n = 1;
   std::vector<int64_t> ops;   // >=0 append(len); -1 flush; -2 append(nullptr,1); -3 append(nullptr,0)
+  std::vector<size_t> failCalls;   // fault injection: these calls of writeData() (0-based, counted over all calls) throw
 };
+
+// writeData() is documented to throw when it cannot write the data; a failing call consumes nothing
+struct SinkFailure : std::runtime_error { SinkFailure() : std::runtime_error("injected sink failure") {} };
 
 template <size_t N>
 struct RecordingWriter : celma::common::WriteBuffer<N, celma::common::WriteCountPolicy> {
@@ -200,8 +204,11 @@ struct RecordingWriter : celma::common::WriteBuffer<N, celma::common::WriteCount
   mutable std::string problem;
   mutable size_t calls = 0;
   mutable size_t maxLen = 0;
+  const std::vector<size_t> *failCalls = nullptr;
   void writeData(const unsigned char *const data, size_t len) const override {
+    const size_t thisCall = calls;
     ++calls;
+    if (failCalls && std::find(failCalls->begin(), failCalls->end(), thisCall) != failCalls->end()) throw SinkFailure();
     if (len == 0) problem = "writeData() called with length 0";
     if (len > maxLen) maxLen = len;
     sink.append(reinterpret_cast<const char *>(data), len);   // reads the whole span (ASan)
@@ -212,21 +219,35 @@ template <size_t N>
 std::string runWrite(const WriteCase &c) {
   auto &st = stats();
   RecordingWriter<N> wb;
+  wb.failCalls = &c.failCalls;
   std::string all;      // everything appended so far
   size_t counter = 0;
-  bool forced = false;
+  bool forced = false, injected = false;
   size_t largest = 0;
+  // the sink failed during an operation: nothing may be lost - what was accepted before is still either in the sink
+  // or in the buffer, in order; the caller then repeats the operation
+  auto afterFailure = [&](const std::string &where) -> std::string {
+    injected = true;
+    st.cls("write.sink_failure_retried");
+    if (wb.sink.size() + wb.buffered() != all.size()) return where + "after a failed write to the sink, sink bytes + buffered() != bytes accepted so far (data lost or duplicated)";
+    if (all.compare(0, wb.sink.size(), wb.sink) != 0) return where + "after a failed write the sink content is not a prefix of the appended bytes";
+    return "";
+  };
   for (size_t oi = 0; oi < c.ops.size(); ++oi) {
     int64_t op = c.ops[oi];
     std::string where = "op #" + std::to_string(oi) + " (" + std::to_string(op) + "): ";
     size_t sinkBefore = wb.sink.size(), bufBefore = wb.buffered();
     try {
       if (op == -1) {
-        wb.flush();
+        for (int attempt = 0;; ++attempt) {
+          try { wb.flush(); break; }
+          catch (const SinkFailure &) { if (attempt > 6) return where + "sink keeps failing"; std::string p = afterFailure(where); if (!p.empty()) return p; }
+        }
         if (wb.buffered() != 0) return where + "buffered() != 0 after flush()";
         st.cls("write.flush");
       } else if (op == -2) {
         try { wb.template append<unsigned char>(nullptr, 1); return where + "append(nullptr,1) not refused"; }
+        catch (const SinkFailure &) { return where + "append(nullptr,1) reached the sink"; }
         catch (const std::exception &) {}
       } else if (op == -3) {
         wb.template append<unsigned char>(nullptr, 0);
@@ -234,9 +255,17 @@ std::string runWrite(const WriteCase &c) {
         size_t len = static_cast<size_t>(op);
         std::unique_ptr<unsigned char[]> src(new unsigned char[len ? len : 1]);   // exact-size (ASan)
         for (size_t i = 0; i < len; ++i) src[i] = static_cast<unsigned char>('a' + (counter++ % 23));
-        all.append(reinterpret_cast<const char *>(src.get()), len);
         if (len > largest) largest = len;
-        wb.append(src.get(), len);
+        for (int attempt = 0;; ++attempt) {
+          try { wb.append(src.get(), len); break; }
+          catch (const SinkFailure &) {
+            if (attempt > 6) return where + "sink keeps failing";
+            std::string p = afterFailure(where);
+            if (!p.empty()) return p;
+            bufBefore = wb.buffered();
+          }
+        }
+        all.append(reinterpret_cast<const char *>(src.get()), len);
         if (len >= N) {
           st.cls("write.pass_through");
           if (wb.buffered() != 0) return where + "oversized block: buffered() != 0 afterwards";
@@ -258,10 +287,15 @@ std::string runWrite(const WriteCase &c) {
     if (wb.sink.size() < sinkBefore) return where + "sink shrank";
     if (wb.maxLen > (largest > N ? largest : N)) return where + "sink called with more bytes than were ever appended/buffered";
   }
-  wb.flush();
+  for (int attempt = 0;; ++attempt) {
+    try { wb.flush(); break; }
+    catch (const SinkFailure &) { if (attempt > 6) return "final flush: sink keeps failing"; std::string p = afterFailure("final flush: "); if (!p.empty()) return p; }
+  }
   if (wb.sink != all) return "after final flush the sink differs from the appended bytes";
-  if (wb.bytesAppended() != all.size()) return "policy bytesAppended() wrong";
-  if (wb.bytesFlushed() != all.size()) return "policy bytesFlushed() wrong";
+  if (!injected) {   // the policy counts attempts, so its numbers are only exact without injected failures
+    if (wb.bytesAppended() != all.size()) return "policy bytesAppended() wrong";
+    if (wb.bytesFlushed() != all.size()) return "policy bytesFlushed() wrong";
+  }
   if (forced) st.markNontrivial();
   return "";
 }
@@ -285,6 +319,7 @@ std::string showWrite(const WriteCase &c) {
   w.tag("write").u(c.n).u(c.ops.size());
   for (auto v : c.ops) w.i(v);
   w.nl();
+  if (!c.failCalls.empty()) { w.tag("fail").u(c.failCalls.size()); for (auto v : c.failCalls) w.u(v); w.nl(); }
   return w.str();
 }
 WriteCase parseWrite(const std::string &t) {
@@ -293,6 +328,7 @@ WriteCase parseWrite(const std::string &t) {
   r.tag(); c.n = r.u();
   size_t k = r.u();
   for (size_t i = 0; i < k; ++i) c.ops.push_back(r.i());
+  if (!r.eof() && r.peek() == "fail") { r.tag(); size_t nf = r.u(); for (size_t i = 0; i < nf; ++i) c.failCalls.push_back(r.u()); }
   return c;
 }
 
@@ -312,6 +348,11 @@ rc::Gen<WriteCase> genWrite() {
             {{1, just<size_t>(0)}, {2, just<size_t>(1)}, {2, just<size_t>(n - 1)},
              {2, just<size_t>(n)}, {1, just<size_t>(n + 1)}, {6, range<size_t>(0, 2 * n + 3)}})));
     }
+    // fault injection: some calls of the sink fail (and are retried by the caller)
+    if (*range<int>(0, 99) < 40) {
+      size_t nf = *range<size_t>(1, 3);
+      for (size_t i = 0; i < nf; ++i) c.failCalls.push_back(*range<size_t>(0, 9));
+    }
     return c;
   });
 }
@@ -327,6 +368,8 @@ void enumWrite(const std::function<bool(const WriteCase &)> &cb) {
         c.n = n;
         c.ops = g;
         if (!cb(c)) return;
+        if (k <= 4)   // the same sequence with the first resp. second call of the sink failing
+          for (size_t f : {size_t(0), size_t(1)}) { WriteCase cf = c; cf.failCalls = {f}; if (!cb(cf)) return; }
         size_t i = 0;
         while (i < k && ++g[i] > hi) g[i++] = -1;
         if (i == k) break;
